@@ -38,8 +38,8 @@ def run(args, rep):
     scoped += [c for c in c2 if c['ctx'] in ('dataclass_after_inner', 'namedtuple_after_inner', 'class_after_dataclass') and any(st[0] in ('annval', 'annnoval') for st in c['blk'])
                and ('ann_class' in c['opts'])]
     rng.shuffle(scoped)
-    scoped = scoped[:6000]
-    cases = c1 + (c2[:10000] + [c for c in scoped if c not in c2[:10000]] if args.tier == 'quick' else c2)
+    scoped = scoped[:3000]
+    cases = c1 + (c2[:8000] + [c for c in scoped if c not in c2[:8000]] if args.tier == 'quick' else c2)
     jobs = [{'id': 's%d' % k, 'ctx': c['ctx'], 'env': c['env'], 'blk': c['blk'], 'opts': c['opts'], 'm': c['m']} for k, c in enumerate(cases)]
     # every case in which the module uses the __doc__ name, once per spelling of that use (read, augmented assignment, assignment, read in a function, del)
     for j in list(jobs):
@@ -90,7 +90,7 @@ def run(args, rep):
     nsym = len(set(tuple(st) for c in c1 for st in c['blk']))
     nctx = len(set(c['ctx'] for c in c1))
     rep.rule = ('cases = (context, environment, block, options) exported by TLC from Suite.tla: every block of length 1 (%d cases) and length 2 (%d cases; '
-                'quick: seeded 10 000 plus up to 6 000 of the cases that pair a name-binding assert / __debug__ block with a lookup of the name) over %d statement symbols in %d contexts, '
+                'quick: seeded 8 000 plus up to 3 000 of the cases that pair a name-binding assert / __debug__ block with a lookup of the name) over %d statement symbols in %d contexts, '
                 'options = every subset of those relevant to the block with the rest all off / all on; '
                 'non-trivial = distinct cases whose output block differs from the input block' % (len(c1), len(c2), nsym, nctx))
     rep.extra.update({'cases_enumerated_by_tlc': total, 'cases_replayed': len(cases), 'model_drift_cases': drift,
